@@ -24,6 +24,9 @@ func init() {
 func runC02(p *eng.Prog, r *eng.Report, tier string) {
 	c := &cx{p, r, tier}
 	callerSlicesNotRewritten(c, "C02.10", negSet(c, "C02.10"))
+	// C02.14 "the tee changes none of this": the connection adapters report
+	// every fault and perform one wrapped operation per call (= C04.13)
+	c04AdaptersReportEveryFault(c, "C02.14")
 	jidEqualRule(c, "C02.11")
 	jidAppendsFresh(c, "C02.12")
 	c02TeeWrapsWhatItWasGiven(c, "C02.13")
